@@ -3,6 +3,9 @@
 //
 // usage: d_slha <jobfile> <tracefile>     jobfile lines:  <id> <format> <path>
 //   format in slha | gm2calc | thdm | config
+//   format writer: <path> is followed by operations  form,name,entry,value,comment  separated by blanks
+//   (form value: fill_block_entry(name, entry, double, comment); form text: fill_block_entry(name, entry, value));
+//   the document is printed after reading and after every operation (events "Doc" with step 0, 1, ...)
 #include "models.hpp"
 #include "gm2_slha_io.hpp"
 #include "gm2_config_options.hpp"
@@ -85,6 +88,34 @@ int main(int argc, char** argv)
       std::istringstream is(line);
       std::string id, fmt, path;
       if (!(is >> id >> fmt >> path)) continue;
+      if (fmt == "writer") {
+         GM2_slha_io io;
+         std::string exc = vm::exc_class([&] { io.read_from_file(path); });
+         int step = 0;
+         auto dump = [&] {
+            std::ostringstream os;
+            io.write_to_stream(os);
+            vt::Ev d("Doc");
+            d.str("id", id).i("step", step).str("exc", exc).str("text", os.str());
+            d.emit();
+         };
+         dump();
+         std::string op;
+         while (is >> op) {
+            std::vector<std::string> f;
+            std::istringstream os(op);
+            std::string t;
+            while (std::getline(os, t, ',')) f.push_back(t);
+            if (f.size() < 4) continue;
+            ++step;
+            exc = vm::exc_class([&] {
+               if (f[0] == "value") io.fill_block_entry(f[1], unsigned(std::stoul(f[2])), std::stod(f[3]), f.size() > 4 ? f[4] : "");
+               else io.fill_block_entry(f[1], unsigned(std::stoul(f[2])), f[3]);
+            });
+            dump();
+         }
+         continue;
+      }
       vt::Ev ev("Filled");
       ev.str("id", id).str("fmt", fmt);
       NV obs;
